@@ -105,8 +105,8 @@ func (f *Filler) fillInto(v reflect.Value, depth int, embeddedPtr bool) {
 		if t.Elem().Kind() == reflect.Uint8 {
 			if !zero {
 				v.SetBytes([]byte(fmt.Sprintf("b%d", f.next())))
-			} else if f.R.Chance(1, 3) {
-				v.SetBytes([]byte{}) // empty but not nil: not the zero value
+			} else if f.R.Chance(1, 2) {
+				v.SetBytes([]byte{}) // empty but not nil: not the zero value, not NULL
 			}
 			return
 		}
